@@ -228,6 +228,9 @@ class CommonRD:
                     urlsplit(set_base)
                 except ValueError:
                     raise error.BadRequest("base is not a URI")
+                if ">" in set_base:
+                    # It is written into the <> of the resource lookup's links
+                    raise error.BadRequest("base is not a URI")
 
             # Lookups resolve the links of all registrations against their
             # bases: a registration whose links can not be resolved would make
@@ -322,6 +325,10 @@ class CommonRD:
             result = []
             for link in links.links:
                 href = urljoin(base, link.href)
+                if ">" in href:
+                    # It could not be written as a link target without
+                    # changing what the resource lookup says for everyone
+                    raise ValueError("Link target is not a URI")
                 # This is the value the resource lookup compares anchors to; it
                 # is calculated in any case so that unresolvable links are
                 # found when they are registered
